@@ -50,6 +50,7 @@ def factsJ (c : AChart) : Json :=
        ("cell_collision", Json.bool (cellCollision c)),
        ("bpm_3dec", Json.bool (c.bpms.all (fun b => BMS.roundDec Generated.BMS.exbpmDecimals b.2 == b.2))),
        ("bpm_positive", Json.bool (c.bpms.all (fun b => decide (0 < b.2)))),
+       ("tempo_tie_unequal", Json.bool (tieUnequal (sortBpms c.bpms))),
        ("bpm_times_distinct", Json.bool (((sortBpms c.bpms).map (·.1)).eraseDups.length == c.bpms.length)),
        ("neg_length", Json.bool (c.holds.any (fun h => decide (h.2.2 < 0)))),
        ("n", natToJson (c.hits.length + c.holds.length)), ("n_bpms", natToJson (normBpms 0 c.bpms).length)]
@@ -136,6 +137,7 @@ def absSM (j : Json) : Except String Json := do
          ("keys", listToJson (fun c => optToJson natToJson (smKeys c.chartType)) d.charts),
          ("extra_kinds", listToJson (fun c => Json.bool (c.notes.any (fun n => n.kind ≠ SM.Kind.hit ∧ n.kind ≠ SM.Kind.hold))) d.charts),
          ("stops_present", Json.bool d.stopsPresent),
+         ("tempo_ties", Json.bool (match d.bpms with | some b => (smTempo b).length != b.length | none => false)),
          ("tempo_on_grid", Json.bool (match d.bpms with | some b => SM.tempoOnGrid b | none => false)),
          ("offset_ms", optToJson ratToJson (d.offsetSec.map (fun o => -(1000 * o))))])
 
